@@ -41,6 +41,17 @@ let bm_eq (a : bm) (b : bm) = nats_eq a.bmTag b.bmTag && nats_eq a.bmActionTag b
                               && List.length a.bmVals = List.length b.bmVals && List.for_all2 qs_eq a.bmVals b.bmVals
 let fm_eq a b = List.length a = List.length b && List.for_all2 bm_eq a b
 
+(* ---------- learners ---------- *)
+let read_mat c = let rows = next_int c in let cols = next_int c in List.init rows (fun _ -> List.init cols (fun _ -> next_q c))
+let read_mat_checked c clause site =
+  let rows = next_int c in let cols = next_int c in
+  List.init rows (fun _ -> List.init cols (fun _ ->
+      match next_x c with Fin v -> v | _ -> oracle_fail clause site "non-finite entry in the Q-function"))
+let mat_eq a b = List.length a = List.length b && List.for_all2 qs_eq a b
+let mat_close a b = List.length a = List.length b && List.for_all2 (fun x y -> List.length x = List.length y && List.for_all2 (fun u v -> q_close u v) x y) a b
+let q_sum l = List.fold_left q_add q_zero l
+let q_maxl l = match l with [] -> q_zero | x :: t -> List.fold_left q_max x t
+
 let judge _id (c : cursor) (r : cursor) : bool * string =
   let kind = next c in
   match kind with
@@ -197,9 +208,7 @@ let judge _id (c : cursor) (r : cursor) : bool * string =
     let l = List.combine (il lk) (il lv) and rr = List.combine (il rk) (il rv) in
     let expected = List.for_all (fun (k, v) -> match List.assoc_opt k rr with Some v' -> v = v' | None -> true) l in
     if (i_a <> 0) <> expected || (i_b <> 0) <> expected then oracle_fail "match_spec" "match" "common factors compared wrongly";
-    (match match_pf lk lv rk rv with
-     | Some b -> if b <> expected then disagree "match_pf" "match" "differ"
-     | None -> ());
+    if match_pf lk lv rk rv <> expected then disagree "match_pf" "match" "differ";
     (not expected, "match")
   | "matchf" ->
     let lhs = next_nats c in let rk = next_nats c in let rv = next_nats c in
@@ -480,9 +489,10 @@ let judge _id (c : cursor) (r : cursor) : bool * string =
         let joint = o_digits sp (int_of_nat a) in
         let expect = List.fold_left (fun acc (tag, means) -> q_add acc (List.nth means (o_radix spA (il tag) joint))) q_zero groups in
         if not (q_eq got expect) then oracle_fail "flattened_model_eq_factored" "FlattenedModel::sampleR" ("arm " ^ string_of_int (int_of_nat a) ^ " pays " ^ string_of_q got ^ " expected " ^ string_of_q expect);
-        helper := toFactorsOut sA a !helper;
-        let m = List.fold_left (fun acc (tag, means) -> q_add acc (List.nth means (int_of_nat (toIndexPartial tag sA !helper)))) q_zero groups in
-        if not (q_eq got m) then disagree "flattened_sampleR" "FlattenedModel::sampleR" "differ") pulls;
+        let (m, h') = flattened_reward sA groups !helper a in
+        helper := h';
+        if not (q_eq got m) then disagree "flattened_sampleR" "FlattenedModel::sampleR" "differ";
+        if not (q_eq m (fbandit_reward sA groups (toFactors sA a))) then disagree "flattened_model_eq_factored" "model" "model differs from its spec") pulls;
     (List.length pulls > 1, "flatb")
   | "fm" ->
     let op = next c in let sS = next_nats c in let sA = next_nats c in let fm = read_fm c in
@@ -526,6 +536,71 @@ let judge _id (c : cursor) (r : cursor) : bool * string =
       List.iter2 (fun (s, a) got -> if not (q_eq got (getValue2D sS sA i_fm (nl s) (nl a))) then disagree "getValue2D" "FactoredMatrix2D::getValue" "differ") pairs i_flat;
       (nb > 0 && List.length pairs > 1, "fm_" ^ op)
     end
+  | "jal" ->
+    let nS = next_nat c in let sA = next_nats c in let id = next_nat c in
+    let discount = next_q c in let alpha = next_q c in
+    let hist = next_list c (fun c -> let s = next_nat c in let aa = next_nats c in let s1 = next_nat c in let rew = next_q c in (((s, aa), s1), rew)) in
+    let i_joint = read_mat r in let i_flat = read_mat r in let i_single = read_mat r in
+    (* O: the joint Q-function is the flat QLearning table on the flattened history *)
+    if not (mat_eq i_joint i_flat) then oracle_fail "jal_eq_qlearning" "JointActionLearner::stepUpdateQ" "joint Q-function differs from flat QLearning on the same history";
+    let st = List.fold_left jal_step (jal_new nS sA id discount alpha) hist in
+    if not (mat_eq st.jalQ i_joint) then disagree "jal_step" "JointActionLearner::stepUpdateQ" "joint Q differs";
+    let flatq = List.fold_left (fun q e -> ql_step alpha discount q (flat_exp sA e)) (qzero nS (factorSpace sA)) hist in
+    if not (mat_eq flatq i_flat) then disagree "ql_step" "QLearning::stepUpdateQ" "flat Q differs";
+    if not (mat_close st.jalSingle i_single) then disagree "jal_single" "JointActionLearner::stepUpdateQ" "single-agent Q differs";
+    (List.length hist > 1, "jal")
+  | "coop" ->
+    let sS = next_nats c in let sA = next_nats c in
+    let nS = List.length sS in
+    let pss = List.init nS (fun _ -> let ag = next_nats c in let fs = next_list c next_nats in { psAgents = ag; psFeatures = fs }) in
+    let g = List.fold_left (fun g ps -> match graph_push g ps with PushOk g' -> g' | _ -> failwith "generator: invalid parent set") (graph_new sS sA) pss in
+    let domains = next_list c next_nats in
+    let discount = next_q c in let alpha = next_q c in
+    let hist = next_list c (fun c -> let s = next_nats c in let a = next_nats c in let s1 = next_nats c in let rew = next_qs c in (s, a, s1, rew)) in
+    (* the bases built by makeQFunction *)
+    let i_tags = next_list r (fun r -> let t = next_nats r in let at = next_nats r in (t, at)) in
+    let m_tags = List.map (fun d -> let (at, t) = List.fold_left (bp_step g) ([], []) d in (t, at)) domains in
+    if List.length i_tags <> List.length m_tags || not (List.for_all2 (fun (a, b) (c', d) -> nats_eq a c' && nats_eq b d) i_tags m_tags) then
+      disagree "makeQFunction" "makeQFunction" "tags differ";
+    let spS = Array.of_list (il sS) and spA = Array.of_list (il sA) in
+    let fsz sp t = List.fold_left (fun a k -> a * sp.(k)) 1 (il t) in
+    let fm0 = List.map (fun (t, at) -> { bmTag = t; bmActionTag = at; bmVals = qzero (nat_of_int (fsz spS t)) (nat_of_int (fsz spA at)) }) i_tags in
+    let norm = coop_norm (nat_of_int (List.length sA)) fm0 in
+    let single = (match i_tags with [(t, at)] -> List.length t = nS && List.length at = List.length sA | _ -> false) in
+    let nA = fsz spA (List.init (List.length sA) nat_of_int) in
+    let flat = ref (qzero (nat_of_int (fsz spS (List.init nS nat_of_int))) (nat_of_int nA)) in
+    let fm = ref fm0 in
+    List.iter (fun (s, a, s1, rew) ->
+        let i_a1 = next_nats r in
+        let i_vals = List.map (fun _ -> read_mat_checked r "coop_reward_split" "CooperativeQLearning::stepUpdateQ") i_tags in
+        (* O (first step, Q-function still zero): each basis moves by alpha * sum over its agents of
+           rew_a / (number of bases containing agent a), at the experienced entry only *)
+        if !fm == fm0 then
+          List.iter2 (fun (t, at) v ->
+              let expect = q_mul alpha (List.fold_left (fun acc ag ->
+                  let cnt = List.length (List.filter (fun (_, at') -> List.mem ag (il at')) i_tags) in
+                  q_add acc (vio_qdiv (List.nth rew ag) (q_of_int cnt))) q_zero (il at)) in
+              let ri = o_radix spS (il t) (Array.of_list (il s)) and ci = o_radix spA (il at) (Array.of_list (il a)) in
+              List.iteri (fun r' rowv -> List.iteri (fun c' x ->
+                  let e = if r' = ri && c' = ci then expect else q_zero in
+                  if not (q_eq x e) then oracle_fail "coop_reward_split" "CooperativeQLearning::stepUpdateQ"
+                      ("first update " ^ string_of_q x ^ " expected " ^ string_of_q e)) rowv) v) i_tags i_vals;
+        (* O (single all-spanning factor): the returned action is greedy for the table before the update *)
+        if single then begin
+          let b = List.hd !fm in
+          let row = List.nth b.bmVals (o_radix spS (il b.bmTag) (Array.of_list (il s1))) in
+          let v = List.nth row (o_radix spA (il b.bmActionTag) (Array.of_list (il i_a1))) in
+          if not (q_eq v (q_maxl row)) then oracle_fail "coop_single_eq_qlearning" "QGreedyPolicy::sampleAction" "the action used in the backup is not greedy"
+        end;
+        fm := coop_step sS sA norm alpha discount !fm s a s1 i_a1 rew;
+        flat := ql_step alpha discount !flat (((toIndex sS s, toIndex sA a), toIndex sS s1), q_sum rew);
+        if single && not (mat_eq (List.hd i_vals) !flat) then
+          oracle_fail "coop_single_eq_qlearning" "CooperativeQLearning::stepUpdateQ" "single-factor Q-function differs from flat QLearning with the summed reward";
+        if not (List.for_all2 (fun (b : bm) v -> mat_eq b.bmVals v) !fm i_vals) then disagree "coop_step" "CooperativeQLearning::stepUpdateQ" "Q-function differs") hist;
+    let i_flat = read_mat r in
+    if single && not (mat_eq !flat i_flat) then oracle_fail "coop_single_eq_qlearning" "QLearning::stepUpdateQ" "flat tables differ";
+    if not (mat_eq !flat i_flat) then disagree "ql_step" "QLearning::stepUpdateQ" "flat Q differs";
+    (List.length hist > 1, if single then "coop_single" else "coop_general")
   | k -> failwith ("unknown case kind " ^ k)
 
 let () = main_loop judge
